@@ -328,7 +328,7 @@ func c07Codec(c *Ctx, r *gen.R, stream string) error {
 	} else {
 		n, per = c.N(3, 12), c.N(8, 30)
 		mk = func(i int) *ir.Request {
-			return gen.GenRuntimeFile(r.Fork(fmt.Sprint("C07rt-", i)), i, gen.RuntimeOpts{ErrorTypes: i%2 == 0})
+			return gen.GenRuntimeFile(r.Fork(fmt.Sprint("C07rt-", i)), i, gen.RuntimeOpts{ErrorTypes: i%2 == 0, JSONNames: i%3 == 1})
 		}
 	}
 	bt, items, err := buildBatch(n, mk, scratch.AddOpts{GoHTTP: true, GoClient: true}, false)
